@@ -188,7 +188,8 @@ class TC(kt.TController):
         self.log.append((self.tid(), self.clock.us) + tuple(ev))
 
 
-def run_case(case, chooser, fine=False, make_scheduler=None, extra_targets=None, max_steps=3000):
+def run_case(case, chooser, fine=False, make_scheduler=None, extra_targets=None, max_steps=3000,
+             spy_entry_yield=True, op_entry_yield=False):
     """Runs the case on the real scheduler.  Must be called inside `with kt.Rebound() as rb`
     (passed as case-independent global RB).  -> Result(log, moves, trace, status, stuck, clockthread)"""
     clock = kt.Clock(case.get("t0", 0))
@@ -209,6 +210,8 @@ def run_case(case, chooser, fine=False, make_scheduler=None, extra_targets=None,
             k = op[0]
             if k in ("now", "rel", "abs"):
                 a = op[-1]
+                if op_entry_yield:
+                    c.yield_point("call")
                 c.emit("call", a)
                 c.me().cur_call = a if k != "abs" else None
                 try:
@@ -242,7 +245,8 @@ def run_case(case, chooser, fine=False, make_scheduler=None, extra_targets=None,
         def action_of(a):
             if a not in actions:
                 def action(scheduler, state, a=a):
-                    c.yield_point("call")
+                    if spy_entry_yield:
+                        c.yield_point("call")
                     c.emit("start", a)
                     for op in bodies.get(a, []):
                         do_op(op)
@@ -534,7 +538,9 @@ def oracle(case, r, single_loop_thread=True):
     if case.get("eie") and not stuck_other and nexit != len(spawned):
         bad.append(("C31 exit_if_empty-thread-stays|", f"{len(spawned)} threads started, {nexit} exited"))
     if i_disp is not None and not stuck_other and nexit != len(spawned):
-        bad.append(("C31 thread-survives-dispose|", f"{len(spawned)} threads started, {nexit} exited"))
+        # not part of the property: dispose() between the loop's two locked blocks loses its notification,
+        # the loop thread then waits for ever (Props/C31.v: C31_ex_dispose_thread_sleeps)
+        bad.append(("NOTE dispose-lost-wakeup", f"{len(spawned)} threads started, {nexit} exited"))
     if not case.get("eie") and i_disp is None and spawned and nexit:
         bad.append(("C31 thread-exited-without-exit_if_empty|", f"{nexit} exits"))
     return bad
